@@ -11,8 +11,8 @@ trap 'git -C /repo worktree remove --force $W >/dev/null 2>&1; rm -rf $W' EXIT
 ( cd $W && go build ./... && go test -vet=off -count=1 ./... 2>&1 | grep -v '^ok\|no test files' | head -5 )
 echo "suite: done (lines above, if any, are failures)"
 for P in "$@"; do
-  out=$(cd /verif && VERIF_REPO=$W timeout ${SEED_TIMEOUT:-900} bin/check $P --tier ${TIER:-quick} 2>&1)
+  out=$(cd ${VERIF_ROOT:-/verif} && VERIF_REPO=$W timeout ${SEED_TIMEOUT:-900} bin/check $P --tier ${TIER:-quick} 2>&1)
   rc=$?
   echo "== $P rc=$rc: $(echo "$out" | grep -E 'VIOLATION|KNOWN|INFRA' | head -2 | tr '\n' ' ') $(echo "$out" | tail -1)"
-  echo "$out" | grep -A4 'first rejected' | sed -n 2,4p
+  echo "$out" | grep -A4 "first rejected" | sed -n 2,4p | cut -c1-400
 done
